@@ -596,6 +596,14 @@ def replay(obj):
         from casbin.persist.adapters.filtered_file_adapter import filter_line
 
         return common.enc_bool(bool(filter_line(obj["line"], [obj["P"], obj["G"]]))) != obj["expected"]
+    if k == "history" and "expected" not in obj:
+        # a hand-written corpus case (model_name, file, ops, signature): judged like a generated history
+        ops = [[o[0]] + ([tuple(o[1]) if o[1] is not None else None] if len(o) > 1 else []) for o in obj["ops"]]
+        store0 = [(k_, a, []) for k_, a, _ in pc.dump_model(casbin.Enforcer.new_model(text=MODELS[obj["model_name"]]))]
+        ans = run_driver("persist", hist_lines(enc_store(store0), obj["file"], ops))
+        with pc.TmpDir() as tmp:
+            vs = eval_history(casbin, Part(), "replay", obj["model_name"], obj["file"], ops, ans, tmp)
+        return any(v["signature"] == obj.get("signature", v["signature"]) for v in vs)
     if k == "history":
         ops = [[o[0]] + ([tuple(o[1]) if o[1] is not None else None] if len(o) > 1 else []) for o in obj["ops"]]
         with pc.TmpDir() as tmp:
